@@ -42,6 +42,33 @@ def apply_edits(src, edits):
     return src
 
 
+def _seeded_mutants(prop):
+    """Independently written property-breaking changes kept under /verif/seeded: regression set for the checks that report them."""
+    import json
+    here = os.path.dirname(os.path.dirname(os.path.abspath(__file__)))
+    out = []
+    root = os.path.join(here, "seeded")
+    if not os.path.isdir(root):
+        return out
+    for d in sorted(os.listdir(root)):
+        mp = os.path.join(root, d, "meta.json")
+        pp = os.path.join(root, d, "patch.diff")
+        if not (os.path.isfile(mp) and os.path.isfile(pp)):
+            continue
+        try:
+            meta = json.load(open(mp))
+        except ValueError:
+            continue
+        if prop in meta.get("checks_reporting_it", []):
+            out.append({"name": "seeded-" + d, "patch": pp, "expect": "violated", "rule": prop, "canary": False,
+                        "what": "independently seeded change %s (target property %s)" % (d, meta.get("property"))})
+    return out
+
+
+def _all_mutants(mod, prop):
+    return list(getattr(mod, "MUTANTS", [])) + _seeded_mutants(prop)
+
+
 def _run_one(args):
     prop, repo, mutant_index, workdir = args
     here = os.path.dirname(os.path.dirname(os.path.abspath(__file__)))
@@ -49,10 +76,16 @@ def _run_one(args):
         sys.path.insert(0, here)
     sys.setrecursionlimit(10000)
     mod = importlib.import_module("rules." + prop.lower())
-    m = mod.MUTANTS[mutant_index]
+    m = _all_mutants(mod, prop)[mutant_index]
     dst = tempfile.mkdtemp(prefix="m%03d_" % mutant_index, dir=workdir)
     try:
         _copy_tree(repo, dst)
+        if "patch" in m:
+            import subprocess
+            r = subprocess.run(["patch", "-p1", "-s", "--no-backup-if-mismatch", "-i", m["patch"]], cwd=dst, capture_output=True, text=True)
+            if r.returncode != 0:
+                return {"name": m["name"], "outcome": "inapplicable", "why": "patch does not apply to this tree"}
+            m = dict(m, file=[], edits=[])
         files = m["file"] if isinstance(m["file"], (list, tuple)) else [m["file"]]
         editsets = m["edits"] if isinstance(m["file"], (list, tuple)) else [m["edits"]]
         for f, eds in zip(files, editsets):
@@ -103,7 +136,7 @@ def _run_one(args):
 
 
 def run(prop, mod, repo, tier, seed, jobs):
-    mutants = getattr(mod, "MUTANTS", [])
+    mutants = _all_mutants(mod, prop)
     idx = [i for i, m in enumerate(mutants) if tier == "thorough" or m.get("quick")]
     rnd = random.Random(seed)
     rnd.shuffle(idx)
@@ -124,7 +157,7 @@ def run(prop, mod, repo, tier, seed, jobs):
         counts[r["outcome"]] = counts.get(r["outcome"], 0) + 1
         m = byname[r["name"]]
         if m["expect"] == "violated":
-            if r["outcome"] in ("survived", "undecided") and m.get("canary"):
+            if r["outcome"] in ("survived", "undecided") and (m.get("canary") or "patch" in m):
                 failures.append("canary mutant '%s' not reported (%s): rule %s is vacuous on this tree" % (
                     r["name"], r["outcome"], m.get("rule", prop)))
             if r["outcome"] == "broken-mutant":
